@@ -367,13 +367,54 @@ def option_defaults_rule(ctx, rule: str):
     ctx.floor(rule, 'update_softmax_options implementations', n, 6)
 
 
+def expand_kwargs(kws):
+    """``**{...}`` arguments spelled out: a dictionary display binds its constant keys; a
+    dictionary comprehension over the items of a display, keeping key and value, binds the same
+    keys provided its filter drops only the unspecified (None) values -- any other filter
+    (truthiness: ``if value``) also drops an explicit False / 0 and is reported.
+    Returns (keyword bindings, problems)."""
+    out, problems = [], []
+    for k, v in kws:
+        if k != '**':
+            out.append((k, v))
+            continue
+        if v[0] == 'dict' and all(kk[0] == 'const' and isinstance(kk[1], str) for kk, _ in v[1]):
+            out += [(kk[1], vv) for kk, vv in v[1]]
+            continue
+        if v[0] == 'comp' and v[1] == 'dict' and len(v[3]) == 1:
+            (_tgt, it, conds) = v[3][0]
+            mc = method_call(it)
+            src = mc[0] if mc and mc[1] == 'items' and not mc[2] else None
+            if src is not None and src[0] == 'dict' and \
+                    all(kk[0] == 'const' and isinstance(kk[1], str) for kk, _ in src[1]):
+                key_t, val_t = v[2]
+                elems = [x for x in subterms(key_t) if x[0] == 'elem' and x[1] == it]
+                if elems and key_t == ('sub', elems[0], ('const', 0)) and \
+                        val_t == ('sub', elems[0], ('const', 1)):
+                    for c in conds:
+                        keeps_not_none = c == ('cmp', 'is not', val_t, NONE) or \
+                            c == ('un', 'not', ('cmp', 'is', val_t, NONE))
+                        if not keeps_not_none:
+                            problems.append(
+                                f'the options are filtered by "{short(c, 40)}" before being '
+                                f'forwarded: an explicit False / 0 is dropped like an '
+                                f'unspecified option, so switching an option off never reaches '
+                                f'the receiver')
+                    out += [(kk[1], vv) for kk, vv in src[1]]
+                    continue
+        out.append((k, v))
+    return tuple(out), problems
+
+
 def forwarding_ok(ctx, fn: FunctionInfo, t: Term, p=None):
     """A forwarding call ``x.update_softmax_options(a0, a1, ..., k=v)`` must bind each option
     of the caller to the parameter of the same name of the callee.  Callee signatures are the
     update_softmax_options implementations of the repository that accept this arity."""
     repo = ctx.repo
     mc = method_call(t)
-    npos, kws = len(mc[2]), mc[3]
+    npos, (kws, kw_problems) = len(mc[2]), expand_kwargs(mc[3])
+    if kw_problems:
+        return False, kw_problems[0]
     # the classes the receiver can be: an attribute of self (constructor annotations / calls)
     # or a value guarded by isinstance on this path.  Dynamic dispatch can reach the override of
     # ANY of their subclasses, so every one of them must bind the options by name
